@@ -274,7 +274,7 @@ Qed.
 Section Balance.
 Variables (rc : bool) (ord : list nat -> list nat).
 Hypothesis Hord : forall l f, In f (ord l) -> In f l.
-Context {P : Z -> Prop}.
+Context {P : Z -> Prop} {st : bool}.
 Hypothesis Pnz : forall l, P l -> l <> 0%Z.
 Hypothesis Psym : forall l, P l -> P (- l)%Z.
 
@@ -292,10 +292,10 @@ Definition not_in_table (s : lstate) (nx : nat) : Prop :=
   forall f o, lookup_nat (ls_tri s) f = Some o -> o <> nx.
 
 Lemma balance_spec nx : forall children s s',
-  tables_ok P s -> sg_label (ls_g s) nx = Some GOr -> not_in_table s nx ->
+  tables_ok P st s -> sg_label (ls_g s) nx = Some GOr -> not_in_table s nx ->
   (forall c ms f, In (c, ms) children -> In f ms -> FOK f) ->
   balance_or_children rc ord nx children s = Some s' ->
-  tables_ok P s' /\ ext (ls_g s) (ls_g s') [nx] /\
+  tables_ok P st s' /\ ext (ls_g s) (ls_g s') [nx] /\
   subst_rel (ls_g s') nx (sg_out (ls_g s) nx) (sg_out (ls_g s') nx).
 Proof.
   induction children as [|[child missing] r IH]; intros s s' Hok Hnx Hnt Hpos H; cbn [balance_or_children] in H.
@@ -306,7 +306,7 @@ Proof.
     destruct (ls_add_edge nx an s1) as [s2|] eqn:E2; [|discriminate].
     destruct (ls_add_edge an child s2) as [s3|] eqn:E3; [|discriminate].
     destruct (add_literal_nodes rc (ord missing) an s3) as [s4|] eqn:E4; [|discriminate].
-    destruct Hok as [[HI Hl Hp Hj] Ht].
+    destruct Hok as [[HI Hl Hp Hj Hsr] Ht].
     set (g := ls_g s) in *.
     assert (Hax : sg_alive g nx = true) by (unfold sg_alive; now rewrite Hnx).
     pose proof (add_node_fresh rc _ _ _ _ HI Ha) as Hfresh.
@@ -321,21 +321,22 @@ Proof.
     assert (He1 : ext g (ls_g s1) [nx]).
     { apply (ext_trans _ g1); [exact (ext_weaken _ _ [] _ (fun y Hy => match Hy with end) He01)|].
       apply remove_edge_ext. now left. }
-    assert (Hc1 : core_ok P s1).
+    assert (Hc1 : core_ok P st s1).
     { constructor; cbn [s1 with_g ls_g ls_lits ls_tri].
       - apply remove_edge_Inv, (add_node_Inv rc _ _ _ _ HI Ha).
       - intros l z Hz. rewrite remove_edge_label. apply (ext_label_some _ _ _ _ _ He01). now apply Hl.
       - intros z l Hz. rewrite remove_edge_label in Hz. destruct (Nat.eq_dec z an) as [->|Hza]; [congruence|].
         rewrite (add_node_label_old rc _ _ _ _ Ha z Hza) in Hz. now apply (Hp z).
       - intros z l Hz. rewrite remove_edge_label in Hz. destruct (Nat.eq_dec z an) as [->|Hza]; [congruence|].
-        rewrite (add_node_label_old rc _ _ _ _ Ha z Hza) in Hz. now apply (Hj z). }
+        rewrite (add_node_label_old rc _ _ _ _ Ha z Hza) in Hz. now apply (Hj z).
+      - intros Hst. apply remove_edge_srcs. exact (add_node_srcs rc _ _ _ _ HI Ha (Hsr Hst)). }
     assert (Ho1 : sg_out (ls_g s1) nx = remove1 child (sg_out g nx)).
     { cbn [s1 with_g ls_g]. rewrite remove_edge_out_same. now rewrite (add_node_out rc _ _ _ _ Ha). }
     assert (Han1' : sg_out (ls_g s1) an = []).
     { cbn [s1 with_g ls_g]. rewrite remove_edge_out_other by exact Hne. exact Han1. }
     assert (Hlan1' : sg_label (ls_g s1) an = Some GAnd) by exact Hlan1.
-    destruct (ls_add_edge_core nx an s1 s2 [nx] Hc1 (or_introl eq_refl) E2) as [Hc2 [He12 [Htri2 [_ Ho2]]]].
-    destruct (ls_add_edge_core an child s2 s3 [an] Hc2 (or_introl eq_refl) E3) as [Hc3 [He23 [Htri3 [_ Ho3]]]].
+    destruct (ls_add_edge_core nx an s1 s2 [nx] Hc1 (or_introl eq_refl) (fun _ => gate_at_ext _ _ _ _ He1 (gate_or _ _ Hnx)) E2) as [Hc2 [He12 [Htri2 [_ Ho2]]]].
+    destruct (ls_add_edge_core an child s2 s3 [an] Hc2 (or_introl eq_refl) (fun _ => gate_at_ext _ _ _ _ He12 (gate_and _ _ Hlan1')) E3) as [Hc3 [He23 [Htri3 [_ Ho3]]]].
     assert (Hlan3 : sg_label (ls_g s3) an = Some GAnd)
       by exact (ext_label_some _ _ _ _ _ He23 (ext_label_some _ _ _ _ _ He12 Hlan1')).
     assert (He03 : ext g (ls_g s3) [nx]).
@@ -414,8 +415,8 @@ Proof.
 Qed.
 
 Lemma pass3_body_spec g0 m s nx s' :
-  diffs_ok FOK g0 m -> tables_ok P s -> grow g0 (ls_g s) ->
-  pass3_body rc ord m s nx = Some s' -> tables_ok P s' /\ grow (ls_g s) (ls_g s').
+  diffs_ok FOK g0 m -> tables_ok P st s -> grow g0 (ls_g s) ->
+  pass3_body rc ord m s nx = Some s' -> tables_ok P st s' /\ grow (ls_g s) (ls_g s').
 Proof.
   intros Hm Hok Hg H. unfold pass3_body in H.
   destruct (sg_label (ls_g s) nx) as [t|] eqn:Hnx; [|discriminate].
@@ -447,13 +448,13 @@ Proof.
     split; [exact Hok'|]. now apply (balance_grow _ _ nx).
 Qed.
 
-Theorem pass3_grow s root s' : tables_ok P s -> pass3 rc ord s root = Some s' ->
-  tables_ok P s' /\ grow (ls_g s) (ls_g s').
+Theorem pass3_grow s root s' : tables_ok P st s -> pass3 rc ord s root = Some s' ->
+  tables_ok P st s' /\ grow (ls_g s) (ls_g s').
 Proof.
   intros Hok H. unfold pass3 in H.
   destruct (get_literal_diffs (ls_g s) root) as [m|] eqn:Em; [|discriminate].
-  pose proof (get_literal_diffs_ok FOK _ _ _ (fun z l Hz => P_abs l (co_pos _ _ (proj1 Hok) z l Hz)) Em) as Hm.
-  apply (dfs_fold_invariant _ _ (fun s1 => tables_ok P s1 /\ grow (ls_g s) (ls_g s1))) in H; [exact H| |].
+  pose proof (get_literal_diffs_ok FOK _ _ _ (fun z l Hz => P_abs l (co_pos _ _ _ (proj1 Hok) z l Hz)) Em) as Hm.
+  apply (dfs_fold_invariant _ _ (fun s1 => tables_ok P st s1 /\ grow (ls_g s) (ls_g s1))) in H; [exact H| |].
   - intros s1 x s2 [Hok1 Hg1] Hb. destruct (pass3_body_spec (ls_g s) m s1 x s2 Hm Hok1 Hg1 Hb) as [Hok2 Hg2].
     split; [exact Hok2|]. exact (grow_trans _ _ _ Hg1 Hg2).
   - split; [exact Hok|apply grow_refl].
